@@ -88,7 +88,10 @@ class History(object):
         return c
 
     def start(self, nclients):
-        self.daemon = busproc.Daemon(self.b, self.rundir, busproc.make_config("@SOCK@"), name="h%d" % self.hid)
+        os.makedirs(self.rundir, exist_ok=True)
+        self.trace = os.path.join(self.rundir, "trace-h%d" % self.hid)
+        self.daemon = busproc.Daemon(self.b, self.rundir, busproc.make_config("@SOCK@"), name="h%d" % self.hid,
+                                     env={"DBUS_VERIF_TRACE": self.trace})
         if not self.daemon.started():
             raise RuntimeError("daemon did not start: " + self.daemon.stderr_text()[-500:])
         self.obs = self.new_client()
@@ -104,7 +107,15 @@ class History(object):
     def everyone(self):
         return [self.obs] + self.clients
 
+    def trim_trace(self):
+        try:
+            if os.path.getsize(self.trace) > 2000000:
+                open(self.trace, "w").close()
+        except OSError:
+            pass
+
     def sync_all(self, skip=None):
+        self.trim_trace()
         for c in self.everyone():
             if c is not skip:
                 c.barrier()
@@ -150,6 +161,9 @@ class History(object):
             r = self.obs.bus_call(b"NameHasOwner", b"s", [n])
             if r.msg.type != 2 or bool(r.msg.body[0]) != (mo is not None):
                 diffs.append(("NameHasOwner", n, r.msg.body if r.msg.type == 2 else "error", mo is not None))
+        fd = self.flag_diffs(names)
+        if fd:
+            diffs.append(("queue-flags(hook H1)", None, fd[0], fd[1]))
         r = self.obs.bus_call(b"ListNames")
         got = set(r.msg.body[0]) if r.msg.type == 2 else None
         want = self.model.all_names() | {b"org.freedesktop.DBus"}
@@ -157,6 +171,35 @@ class History(object):
             diffs.append(("ListNames", None, sorted(got or []), sorted(want)))
         self.part.count("queries", 3 * len(names) + 1)
         return diffs
+
+    def flag_diffs(self, names):
+        """compare (connection, allow_replacement, do_not_queue) of every queue entry with the model, using the
+        state dump the H1 hook appends after each dispatch (the obs.bus_call just before is the barrier)"""
+        try:
+            with open(self.trace) as fh:
+                fh.seek(max(0, os.path.getsize(self.trace) - 20000))
+                text = fh.read()
+        except OSError:
+            return None
+        blocks = text.split("\nS ")
+        state = None
+        for blk in reversed(blocks):
+            if "\nE " in blk:
+                state = blk
+                break
+        if state is None:
+            return None
+        got = {}
+        for ln in state.split("\n"):
+            if ln.startswith("N ") and not ln.startswith("N :"):
+                parts = ln.split()
+                got[parts[1].encode()] = [(e.split("/")[0].encode(), e.split("/")[1] == "1", e.split("/")[2] == "1") for e in parts[2:]]
+        self.part.count("flag-dumps-compared")
+        for n in names:
+            want = [(e[0], bool(e[1]), bool(e[2])) for e in self.model.q.get(n, [])]
+            if got.get(n, []) != want:
+                return (n.decode("latin1"), got.get(n, [])), want
+        return None
 
     def observed_queues(self, names):
         out = {}
@@ -515,7 +558,8 @@ def run(tier, seed, replay=None, scale=1.0):
         for n in need:
             r.require("row:" + n, 1)
     r.require("queries", 100)
-    r.assumptions = ["flags held in the queue are observed only through later behaviour (no state-dump hook yet)",
+    r.require("flag-dumps-compared", 100)
+    r.assumptions = ["queue flags are compared with the model through the H1 state dump after every step (in addition to behaviour)",
                      "undefined RequestName flag bits are modelled as ignored",
                      "order of NameOwnerChanged/NameLost/NameAcquired among themselves is not judged (unspecified); unique name released last on disconnect is"]
     return r.finish()
